@@ -757,6 +757,7 @@ def with_mc3(pid, f):
             rep.floor('MC3 memoised functions of the package (reviewed set)', n, 20)
         # PU1 over the modules of the property (package-wide in the thorough tier); the properties that already run it keep their own floors
         scope = [q for q in sorted(proj.modules) if any(q == x or q.startswith(x + '.') for x in MC3_SCOPE[pid])] if tier == 'quick' else sorted(proj.modules)
+        round3b.dtf1(proj, rep, MC3_SCOPE[pid] if tier == 'quick' else None)
         if pid != 'C05':
             kdefects.mc1(proj, rep, scope)
         if pid not in ('C03', 'C11'):
